@@ -1,0 +1,6 @@
+//go:build !verif
+// +build !verif
+
+package batch
+
+func verifYield(site string) {}
